@@ -50,6 +50,9 @@ struct Sim {
     unaware_at_apply: Vec<bool>,
     tick_err: Option<String>,
     last_in: usize,
+    /// consecutive ms during which a reload was pending, kanata reported idle and no input arrived
+    idle_pending_run: u64,
+    max_idle_pending_run: u64,
 }
 
 fn parse_mapped(path: &PathBuf) -> Option<rustc_hash::FxHashSet<OsCode>> {
@@ -62,7 +65,7 @@ impl Sim {
         let args = ValidatedArgs { paths: paths.clone(), tcp_server_address: None, symlink_path: None, nodelay: true };
         let k = Kanata::new(&args).map_err(|e| format!("{e}"))?;
         let (tx, rx) = sync_channel::<ServerMessage>(chan_cap);
-        Ok(Sim { k, tx: Some(tx), rx, now: 0, outs: vec![], notes: vec![], mapped, paths, attempts: vec![], requests: vec![], pending_prev: false, dropped_base: kanata_keyberon::layout::VERIF_CUSTOM_EVENTS_DROPPED.load(std::sync::atomic::Ordering::Relaxed), att_seen: kanata_state_machine::verif_seam::LIVE_RELOAD_ATTEMPTS.load(std::sync::atomic::Ordering::Relaxed), cur_op: 0, op_tick: vec![], gap_done: 0, attempt_pos: vec![], down_at_apply: vec![], unaware_at_apply: vec![], tick_err: None, last_in: usize::MAX })
+        Ok(Sim { k, tx: Some(tx), rx, now: 0, outs: vec![], notes: vec![], mapped, paths, attempts: vec![], requests: vec![], pending_prev: false, dropped_base: kanata_keyberon::layout::VERIF_CUSTOM_EVENTS_DROPPED.load(std::sync::atomic::Ordering::Relaxed), att_seen: kanata_state_machine::verif_seam::LIVE_RELOAD_ATTEMPTS.load(std::sync::atomic::Ordering::Relaxed), cur_op: 0, op_tick: vec![], gap_done: 0, attempt_pos: vec![], down_at_apply: vec![], unaware_at_apply: vec![], tick_err: None, last_in: usize::MAX, idle_pending_run: 0, max_idle_pending_run: 0 })
     }
     fn down_now(&self) -> Vec<String> {
         let mut d = DownSet::default();
@@ -124,6 +127,12 @@ impl Sim {
             self.notes.push((self.now, txt));
         }
         let pending = self.k.verif_live_reload_requested();
+        if pending && self.k.is_idle() {
+            self.idle_pending_run += 1;
+            self.max_idle_pending_run = self.max_idle_pending_run.max(self.idle_pending_run);
+        } else {
+            self.idle_pending_run = 0;
+        }
         let att_now = kanata_state_machine::verif_seam::LIVE_RELOAD_ATTEMPTS.load(std::sync::atomic::Ordering::Relaxed);
         let attempted_now = att_now > self.att_seen;
         self.att_seen = att_now;
@@ -165,6 +174,7 @@ impl Sim {
             return;
         }
         self.last_in = idx;
+        self.idle_pending_run = 0;
         let _ = self.k.can_block_update_idle_waiting(0);
         if let Err(e) = self.k.handle_input_event(&KeyEvent { code: osc, value }) {
             if self.tick_err.is_none() {
@@ -295,7 +305,7 @@ impl Prop for C15 {
         "C15"
     }
     fn rule_text(&self) -> String {
-        "case = 1-3 config files (generated from the action grammar; one key of the old config carries lrld / lrld-next / lrld-prev / (lrld-num n)); history = typing on the old config (keys held, tap-holds pending, one-shots active, macros running at the moment of the request), a storage fault or a new valid content written to the file that will be reloaded (valid / unbalanced / truncated / semantically rejected / empty / missing / directory / not UTF-8), the request (optionally twice back-to-back), release of everything, then typing on whatever config is active. Executed on the real Kanata::new + handle_time_ticks (hook H3) with a notification channel of capacity 1 or 100. Oracles: FAILED reload: no ConfigFileReload notification, and the whole output trace equals that of the same history on a twin configuration whose request key is (push-msg ...) instead of the reload action (the request changed nothing); SUCCESSFUL reload: applied once per pending request and only when no OS key is down or >= 1000 ms after the request, nothing is down afterwards, ConfigFileReload(file) then LayerChange(first layer) are offered to the channel, and the continuation typed from an idle state produces exactly the output a freshly started instance of the new file produces for the same continuation. non-trivial = a reload was attempted; distinct = files x history hash.".into()
+        "case = 1-3 config files (generated from the action grammar; one key of the old config carries lrld / lrld-next / lrld-prev / (lrld-num n)); history = typing on the old config (keys held, tap-holds pending, one-shots active, macros running at the moment of the request), a storage fault or a new valid content written to the file that will be reloaded (valid / unbalanced / truncated / semantically rejected / empty / missing / directory / not UTF-8), the request (optionally twice back-to-back), release of everything, then typing on whatever config is active. Executed on the real Kanata::new + handle_time_ticks (hook H3) with a notification channel of capacity 1 or 100. Oracles: FAILED reload: no ConfigFileReload notification, and the whole output trace equals that of the same history on a twin configuration whose request key is (push-msg ...) instead of the reload action (the request changed nothing); SUCCESSFUL reload: applied once per pending request and only when no OS key is down or >= 1000 ms after the request, and a request never stays pending through more than 1100 consecutive idle ms, nothing is down afterwards, ConfigFileReload(file) then LayerChange(first layer) are offered to the channel, and the continuation typed from an idle state produces exactly the output a freshly started instance of the new file produces for the same continuation. non-trivial = a reload was attempted; distinct = files x history hash.".into()
     }
     fn runs(&self, tier: Tier) -> u64 {
         match tier {
@@ -430,14 +440,17 @@ impl Prop for C15 {
         // the request
         let rk = oscode_of(REQ_KEY);
         case.set("req_at", ops.len());
+        // (the request key itself may be held for longer than the idle second)
+        let long_req = !twice && r.chance(120);
         for _ in 0..(if twice { 2 } else { 1 }) {
             ops.push(Op::Press(rk));
-            ops.push(Op::Gap(r.range(1, 4) as u32));
+            ops.push(Op::Gap(if long_req { r.range(1_200, 1_800) } else { r.range(1, 4) } as u32));
             ops.push(Op::Release(rk));
             ops.push(Op::Gap(r.range(1, 4) as u32));
         }
-        // keys still held are released after a while (the reload waits for them)
-        ops.push(Op::Gap(*r.pick(&[1u32, 5, 40, 300])));
+        // keys still held are released after a while (the reload waits for them, but not for
+        // longer than one idle second)
+        ops.push(Op::Gap(*r.pick(&[1u32, 5, 40, 300, 300, 1_300, 2_200])));
         r.shuffle(&mut down);
         for k in down.drain(..) {
             ops.push(Op::Release(k));
@@ -525,6 +538,18 @@ impl Prop for C15 {
         }
         let attempted = !a.attempts.is_empty();
         o.nontrivial = attempted;
+        if a.max_idle_pending_run > 1_000 {
+            o.count("probe.reload-pending-through-an-idle-second", 1);
+        }
+        if a.max_idle_pending_run > 1_100 {
+            // "or after one idle second": a pending reload does not outlast an idle second
+            o.set_fail(
+                "C15:idle-fallback-did-not-reload",
+                format!("a reload stayed pending through {} consecutive ms in which kanata reported idle and no input arrived (requests at {:?}, attempts at {:?})", a.max_idle_pending_run, a.requests, a.attempts.iter().map(|x| x.0).collect::<Vec<_>>()),
+                vec![],
+            );
+            return o;
+        }
         if a.requests.is_empty() {
             // the request key did nothing (e.g. its press was consumed by a pending decision of another key that never resolved)
             o.count("request.never-became-pending", 1);
